@@ -124,6 +124,22 @@ def c11_i1(ctx):
         raise Anchor("C11-I1", "match on the results of forward_pdu / process_primitive in manage_transactions (found %d)" % found)
 
 
+def _elapsed_guard(prog, fn, b):
+    """the site is reached only with `now - start_time >= timeout` established (the loop test of Counter::update)"""
+    from rules_wiring import _under_elapsed_test
+
+    class _C:
+        pass
+
+    c = _C()
+    c.prog = prog
+    from df import Mods
+    from panics import _mods
+
+    c.mods = _mods(prog)
+    return _under_elapsed_test(c, fn, b)
+
+
 JUSTIFIED_DAEMON = (
     {"fn": "Daemon::manage_transactions", "mac": "tokio::select", "reason": "tokio::select! internals; trusted macro expansion"},
     {"fn": "Daemon::manage_transactions", "mac": "$crate::select", "reason": "tokio::select! internals; trusted macro expansion"},
@@ -144,8 +160,9 @@ JUSTIFIED_DAEMON = (
     },
     {
         "fn": "timer::Counter::update",
-        "kind": "call:add_assign",
-        "match": r"^AddAssign>::add_assign\(&mut self\.start_time, self\.timeout\)$",
+        "kind": ("call:add_assign", "call:add"),
+        "match": r"^(AddAssign>::add_assign\(&mut self\.start_time, (self\.)?timeout\)|Add>::add\(self\.start_time, (self\.)?timeout\))$",
+        "sem": lambda prog, fn, b, t, ebf: _elapsed_guard(prog, fn, b),
         "reason": "executed only inside `while now - start_time >= timeout`, so start_time + timeout <= now: no Instant overflow",
     },
     {
